@@ -265,7 +265,7 @@ def noRetrOld : Plan → Bool
   | .map _ s => noRetrOld s
   | .streamJoin _ _ l r => noRetrOld l && noRetrOld r
   | .outerJoin _ _ _ _ l r => noRetrOld l && noRetrOld r
-  | .lookupJoin _ _ => false
+  | .lookupJoin s j => noRetrOld s && noRetrOld j
 
 /-- … was not sound: a LEFT JOIN of two files retracts a NULL-padded row when the match arrives later -/
 theorem old_noRetractions_flag_refuted :
